@@ -9,7 +9,7 @@ def _drift():
     import os
     import vf
     res = {}
-    for name, term in (("histories", "drift fx_now"), ("keys", "drift2 true true false")):
+    for name, term in (("histories", "drift fx_all"), ("keys", "drift2 true true true")):
         try:
             obs = vf.read_obs(os.path.join(vf.OUT, "C11", "obs_%s.jsonl" % name))[:80]
             if not obs:
@@ -38,14 +38,14 @@ P = {
                  "C11_jk_cache_transparent", "C11_F11_refuted"],
     "streams": [{
         "name": "histories", "pkg": "./internal/rules/mechanisms", "test": "TestVerifC11",
-        "overlay": OVERLAY, "eval_module": "Run.Eval_C11", "check_term": "check fx_now",
+        "overlay": OVERLAY, "eval_module": "Run.Eval_C11", "check_term": "check fx_all",
         "n_quick": 600, "n_thorough": 6000, "shard": 44,
-        "findings": {4: "C11-F4", 6: "C11-F6", 7: "C11-F7", 10: "C11-F10"},
+        "findings": {4: "C11-F4", 6: "C11-F6", 7: "C11-F7"},
     }, {
         "name": "keys", "pkg": "./internal/rules/mechanisms", "test": "TestVerifC11Keys",
-        "overlay": OVERLAY, "eval_module": "Run.Eval_C11", "check_term": "check2 true true false",
+        "overlay": OVERLAY, "eval_module": "Run.Eval_C11", "check_term": "check2 true true true",
         "n_quick": 300, "n_thorough": 3000, "shard": 56,
-        "findings": {4: "C11-F4", 11: "C11-F11"},
+        "findings": {4: "C11-F4"},
     }],
     "rule": "stream histories: histories of 2-6 executions of REAL caching mechanisms (oauth2_introspection and generic authenticators, "
             "remote authorizer, generic contextualizer) created by the real mechanism factory from a generated prototype (0-3 endpoint "
